@@ -76,4 +76,5 @@ def main():
         print("%-7s %-8s %s%s" % (verdict, expect, name, ("\n        " + info) if verdict != "ok" and info else ""))
     print("REGRESS %s: %d jobs, %d bad" % (prop, len(res), bad))
 
-main()
+if __name__ == "__main__":
+    main()
